@@ -13,11 +13,17 @@ virtual platform's `rules` dict.
 namespace MpfVerif.Rules
 
 /-- one row of the platform's `rules` dict.  kind: 0 pulse_on_hit, 1 pulse_on_hit_and_enable_and_release,
-2 pulse_on_hit_and_release, 3 pulse_on_hit_and_release_and_disable, 4 pulse_on_hit_and_enable_and_release_and_disable -/
+2 pulse_on_hit_and_release, 3 pulse_on_hit_and_release_and_disable, 4 pulse_on_hit_and_enable_and_release_and_disable,
+5 delayed_pulse_on_hit -/
 structure Entry where
   sw : Nat
   coil : Nat
   kind : Nat
+  /-- the settings the rule was written with: `[invert, debounce, pulse ms, pulse power ‰, hold power ‰ + 1 (0 = no hold),
+  recycle, delay ms, hardware repulse (0 none, 1 settings passed but off, 2 on), repulse debounce ms]` -/
+  cont : List Nat := []
+  /-- the pulse length is scaled by the flipper power setting sampled when the rule is written -/
+  pw : Bool := false
   deriving DecidableEq, Repr
 
 /-- auxiliary switch handler registered together with a rule.  kind: 0 PSU pulse notification, 1 button active,
@@ -43,11 +49,22 @@ structure FCfg where
   eos : Option Nat := none       -- eos_switch when use_eos
   main : Nat := 0
   hold : Option Nat := none
-  repulse : Bool := false        -- repulse_on_eos_open (platform without hardware repulse)
+  repulse : Bool := false        -- repulse_on_eos_open
   eosMs : Nat := 0               -- eos_active_ms_before_repulse
-  psuSt : Nat := 1               -- switch state the PSU handler listens on (0 for an NC activation switch)
-  psuMain : Bool := true         -- pulse duration of the main rule ≠ 0 (a PSU handler is registered)
-  psuHold : Bool := true
+  hwRepulse : Bool := false      -- platform feature hardware_eos_repulse: the platform gets the repulse settings, no manager
+  actNc : Bool := false          -- activation switch is NC
+  eosNc : Bool := false
+  power : Bool := false          -- power_setting_name configured
+  moPulse : Option Nat := none   -- main_coil_overwrite: pulse_ms, pulse_power ‰, hold_power ‰
+  moPower : Option Nat := none
+  moHold : Option Nat := none
+  hoPulse : Option Nat := none   -- hold_coil_overwrite: pulse_ms, pulse_power ‰
+  hoPower : Option Nat := none
+  mainDefPulse : Nat := 10       -- the coils' defaults
+  holdDefPulse : Nat := 10
+  mainDefHold : Option Nat := none
+  holdDefHold : Option Nat := none
+  mpfPulse : Nat := 10           -- mpf: default_pulse_ms
   okMain : Bool := true          -- limits accept the main rule
   okHold : Bool := true
   holdMs : Nat := 1000           -- ball_search_hold_time
@@ -55,8 +72,16 @@ structure FCfg where
 structure ACfg where
   sw : Nat := 0
   coil : Nat := 0
-  psuState : Nat := 1
-  psu : Bool := true
+  reverse : Bool := false        -- reverse_switch
+  nc : Bool := false             -- the switch is NC
+  swDeb : Bool := false          -- the switch's own debounce is "normal"
+  owDeb : Option Bool := none    -- switch_overwrite: debounce == "normal"
+  owRecycle : Option Bool := none  -- coil_overwrite: recycle
+  defRecycle : Option Bool := none -- coil: default_recycle
+  owPulse : Option Nat := none   -- coil_overwrite: pulse_ms
+  defPulse : Nat := 10
+  owPower : Option Nat := none   -- coil_overwrite: pulse_power ‰
+  delay : Nat := 0               -- coil_pulse_delay (0 = plain pulse rule)
   ok : Bool := true              -- limits accept the rule and the platform supports it
   watch : Nat := 0               -- timeout_watch_time in ms (0 = no timeout protection)
   maxHits : Nat := 0
@@ -78,28 +103,76 @@ structure Cfg where
 
 def psuAux (b : Bool) (sw st coil : Nat) : List Aux := if b then [⟨sw, st, 0, coil⟩] else []
 
-def eosAux (f : FCfg) (a e : Nat) : List Aux :=
-  if f.repulse then [⟨a, 1, 1, f.main⟩, ⟨a, 0, 2, f.main⟩, ⟨e, 1, 3, f.main⟩, ⟨e, 0, 4, f.main⟩] else []
+def b2n (b : Bool) : Nat := if b then 1 else 0
 
-/-- `Flipper.enable`: the rules A–I by wiring variant, in the order they are written -/
+/-- the software manager exists when the rule asks for a repulse and the platform cannot do it itself -/
+def softRepulse (f : FCfg) : Bool := f.repulse && !f.hwRepulse
+
+def eosAux (f : FCfg) (a e : Nat) : List Aux :=
+  if softRepulse f then [⟨a, 1, 1, f.main⟩, ⟨a, 0, 2, f.main⟩, ⟨e, 1, 3, f.main⟩, ⟨e, 0, 4, f.main⟩] else []
+
+/-- `Flipper._get_pulse_ms` / `_get_hold_pulse_ms` followed by `Driver.get_and_verify_pulse_ms`: with a power setting the
+base is the overwrite (the mpf default when it is None or 0) and the result is scaled when the rule is written; otherwise
+the overwrite, or the coil's default when there is none -/
+def pulseBase (power : Bool) (ow : Option Nat) (mpfDef coilDef : Nat) : Nat :=
+  if power then (match ow with | some p => if p = 0 then mpfDef else p | none => mpfDef)
+  else ow.getD coilDef
+
+/-- `get_and_verify_hold_power`, encoded `+ 1` (0 is "rule without hold") -/
+def holdEnc (ow coilDef : Option Nat) : Nat := (ow.getD (coilDef.getD 0)) + 1
+
+/-- `_get_repulse_settings`: what the platform is told about the repulse -/
+def repEnc (f : FCfg) : List Nat :=
+  if softRepulse f then [0, 0] else [if f.repulse then 2 else 1, f.eosMs]
+
+def fCont (inv : Bool) (pulse power hold : Nat) (rep : List Nat) : List Nat :=
+  [b2n inv, 0, pulse, power, hold, 0, 0] ++ rep
+
+/-- `Flipper.enable`: the rules A–I by wiring variant, in the order they are written, with the settings they carry.
+(As in the code: the EOS rule of the main coil takes its pulse from `hold_coil_overwrite`, the hold rule its hold power
+from `main_coil_overwrite`.) -/
 def flipperSpecs (f : FCfg) : List Spec :=
   match f.act with
   | none => []
   | some a =>
+    let pMain := pulseBase f.power f.moPulse f.mpfPulse f.mainDefPulse
+    let pEos := pulseBase f.power f.hoPulse f.mpfPulse f.mainDefPulse
+    let pHold := pulseBase f.power f.hoPulse f.mpfPulse f.holdDefPulse
+    let psuSt := if f.actNc then 0 else 1
     let mainSpec : Spec :=
       match f.eos, f.hold with
-      | some e, some _ => ⟨[⟨a, f.main, 3⟩, ⟨e, f.main, 3⟩], eosAux f a e ++ psuAux f.psuMain a f.psuSt f.main, f.okMain⟩
-      | some e, none => ⟨[⟨a, f.main, 4⟩, ⟨e, f.main, 4⟩], eosAux f a e ++ psuAux f.psuMain a f.psuSt f.main, f.okMain⟩
-      | none, some _ => ⟨[⟨a, f.main, 2⟩], psuAux f.psuMain a f.psuSt f.main, f.okMain⟩
-      | none, none => ⟨[⟨a, f.main, 1⟩], psuAux f.psuMain a f.psuSt f.main, f.okMain⟩
+      | some e, some _ =>
+        let cn := fun inv => fCont inv pEos (f.hoPower.getD 1000) 0 (repEnc f)
+        ⟨[⟨a, f.main, 3, cn f.actNc, f.power⟩, ⟨e, f.main, 3, cn f.eosNc, f.power⟩],
+         eosAux f a e ++ psuAux (f.power || pEos != 0) a psuSt f.main, f.okMain⟩
+      | some e, none =>
+        let cn := fun inv => fCont inv pEos (f.hoPower.getD 1000) (holdEnc f.moHold f.mainDefHold) (repEnc f)
+        ⟨[⟨a, f.main, 4, cn f.actNc, f.power⟩, ⟨e, f.main, 4, cn f.eosNc, f.power⟩],
+         eosAux f a e ++ psuAux (f.power || pEos != 0) a psuSt f.main, f.okMain⟩
+      | none, some _ =>
+        ⟨[⟨a, f.main, 2, fCont f.actNc pMain (f.moPower.getD 1000) 0 [0, 0], f.power⟩],
+         psuAux (f.power || pMain != 0) a psuSt f.main, f.okMain⟩
+      | none, none =>
+        ⟨[⟨a, f.main, 1, fCont f.actNc pMain (f.moPower.getD 1000) (holdEnc f.moHold f.mainDefHold) [0, 0], f.power⟩],
+         psuAux (f.power || pMain != 0) a psuSt f.main, f.okMain⟩
     match f.hold with
-    | some h => [mainSpec, ⟨[⟨a, h, 1⟩], psuAux f.psuHold a f.psuSt h, f.okHold⟩]
+    | some h => [mainSpec, ⟨[⟨a, h, 1, fCont f.actNc pHold (f.hoPower.getD 1000) (holdEnc f.moHold f.holdDefHold) [0, 0], f.power⟩],
+                            psuAux (f.power || pHold != 0) a psuSt h, f.okHold⟩]
     | none => [mainSpec]
+
+/-- `AutofireCoil.enable`: the one rule with the settings selected from the overwrites and the defaults -/
+def autofireEntry (a : ACfg) : Entry :=
+  let inv := a.reverse != a.nc
+  let deb := match a.owDeb with | some d => d | none => a.swDeb
+  let recycle := match a.owRecycle with | some r => r | none => (match a.defRecycle with | some r => r | none => true)
+  ⟨a.sw, a.coil, if a.delay = 0 then 0 else 5,
+   [b2n inv, b2n deb, a.owPulse.getD a.defPulse, a.owPower.getD 1000, 0, b2n recycle, a.delay, 0, 0], false⟩
 
 def specsOf (d : Dev) : List Spec :=
   match d.kind with
   | .flipper f => flipperSpecs f
-  | .autofire a => [⟨[⟨a.sw, a.coil, 0⟩], psuAux a.psu a.sw a.psuState a.coil, a.ok⟩]
+  | .autofire a =>
+    [⟨[autofireEntry a], psuAux (a.owPulse.getD a.defPulse != 0) a.sw (if a.reverse != a.nc then 0 else 1) a.coil, a.ok⟩]
 
 def concatMap {α β : Type} (f : α → List β) : List α → List β
   | [] => []
@@ -110,7 +183,7 @@ def auxOf (d : Dev) : List Aux := concatMap Spec.aux (specsOf d)
 def installable (d : Dev) : Bool := (specsOf d).all Spec.ok
 
 /-- the manager exists while the rule of a flipper with EOS switch and `repulse_on_eos_open` is installed -/
-def hasManager (f : FCfg) : Bool := f.act.isSome && f.eos.isSome && f.repulse
+def hasManager (f : FCfg) : Bool := f.act.isSome && f.eos.isSome && softRepulse f
 
 structure DSt where
   enabled : Bool := false
@@ -129,12 +202,14 @@ structure DSt where
   reDue : Option Nat := none       -- delay `_timeout_enable_delay`
   searching : Bool := false        -- _ball_search_in_progress
   searchDue : Option Nat := none   -- delay `ball_search_ignore_done`
+  factor : Nat := 1000             -- flipper: the power setting (‰) sampled when its rules were written
 
 /-- coil commands: 0 pulse, 1 enable, 2 disable -/
 abbrev Cmd := Nat × Nat
 
 structure St where
   now : Nat := 0
+  setting : Nat := 1000            -- the flipper power setting (‰)
   table : List Entry := []
   aux : List Aux := []
   on : List Nat := []              -- coils enabled by a software command
@@ -186,7 +261,7 @@ def enableDev (c : Cfg) (s : St) (i : Nat) : St :=
     let s1 := installRules s d
     match d.kind with
     | .flipper f =>
-      upd s1 i { ds with enabled := true, button := false, eosLong := false, repOn := false,
+      upd s1 i { ds with enabled := true, factor := s.setting, button := false, eosLong := false, repOn := false,
                          eosDue := if hasManager f && ds.eosOn && f.eosMs != 0 && decide (s.now < ds.eosSince + f.eosMs)
                                    then some (ds.eosSince + f.eosMs) else none }
     | .autofire _ => upd s1 i { ds with enabled := true }
@@ -313,6 +388,7 @@ inductive Op
   | hit (i : Nat)
   | ev (e : Nat)
   | advance (dt : Nat)
+  | setting (v : Nat)
 
 /-- the request itself; a device index outside the configuration names no device -/
 def doOp (c : Cfg) (s : St) : Op → St
@@ -325,6 +401,7 @@ def doOp (c : Cfg) (s : St) : Op → St
   | .hit i => if i < c.n then hitDev c s i else s
   | .ev e => evStep c s e
   | .advance dt => { s with now := s.now + dt }
+  | .setting v => { s with setting := v }
 
 /-- one step: the request, then every timer that is due -/
 def step (c : Cfg) (s : St) (op : Op) : St :=
@@ -334,12 +411,25 @@ def run (c : Cfg) (s : St) (ops : List Op) : St := ops.foldl (step c) s
 
 def init : St := {}
 
+/-! ## the rules as the platform holds them: a power-scaled pulse is the base times the setting sampled by the owner -/
+
+def scaleEntry (k : Nat) (e : Entry) : Entry :=
+  if e.pw then { e with cont := e.cont.set 2 (e.cont.getD 2 0 * k / 1000) } else e
+
+/-- the sampled setting of the enabled device (below `n`) that owns row `e` -/
+def ownerFactor (c : Cfg) (s : St) (e : Entry) : Nat → Nat
+  | 0 => 1000
+  | j + 1 => if (s.devs j).enabled && (entriesOf (c.dev j)).contains e then (s.devs j).factor else ownerFactor c s e j
+
+def effTable (c : Cfg) (s : St) : List Entry := s.table.map (fun e => scaleEntry (ownerFactor c s e c.n) e)
+
 /-! ## driver -/
 
 def natOf (t : String) : Option Nat := t.toNat?
 def optOf (t : String) : Option (Option Nat) := if t = "-" then some none else t.toNat?.map some
 def boolOf (t : String) : Option Bool := if t = "1" then some true else if t = "0" then some false else none
 def listOf (t : String) : Option (List Nat) := if t = "-" then some [] else (t.splitOn ",").mapM natOf
+def optBoolOf (t : String) : Option (Option Bool) := if t = "-" then some none else (boolOf t).map some
 
 structure DrvSt where
   devs : List Dev := []
@@ -362,7 +452,7 @@ def showDev (now : Nat) (d : Dev) (ds : DSt) : String :=
 
 def showState (d : DrvSt) : String :=
   let s := d.s
-  let t := ",".intercalate (s.table.map (fun e => s!"{e.sw}/{e.coil}/{e.kind}"))
+  let t := ",".intercalate ((effTable (cfgOf d) s).map (fun e => "/".intercalate ((e.sw :: e.coil :: e.kind :: e.cont).map toString)))
   let h := ",".intercalate (s.aux.map (fun a => s!"{a.sw}/{a.state}/{a.kind}/{a.coil}"))
   let o := ",".intercalate (s.on.map toString)
   let ds := ",".intercalate ((List.range d.devs.length).map (fun i => showDev s.now (d.devs.getD i {}) (s.devs i)))
@@ -372,13 +462,23 @@ def showState (d : DrvSt) : String :=
 
 def parseDev (ts : List String) : Option Dev :=
   match ts with
-  | ["F", act, eos, main, hold, rep, eosMs, psuSt, psuM, psuH, okM, okH, holdMs, en, dis] => do
+  | ["F", act, eos, main, hold, rep, eosMs, hwRep, actNc, eosNc, power, moPulse, moPower, moHold, hoPulse, hoPower,
+     mainDefPulse, holdDefPulse, mainDefHold, holdDefHold, okM, okH, holdMs, en, dis] => do
     let f : FCfg := { act := ← optOf act, eos := ← optOf eos, main := ← natOf main, hold := ← optOf hold,
-                      repulse := ← boolOf rep, eosMs := ← natOf eosMs, psuSt := ← natOf psuSt, psuMain := ← boolOf psuM, psuHold := ← boolOf psuH,
+                      repulse := ← boolOf rep, eosMs := ← natOf eosMs, hwRepulse := ← boolOf hwRep,
+                      actNc := ← boolOf actNc, eosNc := ← boolOf eosNc, power := ← boolOf power,
+                      moPulse := ← optOf moPulse, moPower := ← optOf moPower, moHold := ← optOf moHold,
+                      hoPulse := ← optOf hoPulse, hoPower := ← optOf hoPower,
+                      mainDefPulse := ← natOf mainDefPulse, holdDefPulse := ← natOf holdDefPulse,
+                      mainDefHold := ← optOf mainDefHold, holdDefHold := ← optOf holdDefHold,
                       okMain := ← boolOf okM, okHold := ← boolOf okH, holdMs := ← natOf holdMs }
     pure { kind := .flipper f, enEv := ← listOf en, disEv := ← listOf dis }
-  | ["A", sw, coil, psuSt, psu, ok, watch, maxHits, disMs, fired, en, dis] => do
-    let a : ACfg := { sw := ← natOf sw, coil := ← natOf coil, psuState := ← natOf psuSt, psu := ← boolOf psu,
+  | ["A", sw, coil, reverse, nc, swDeb, owDeb, owRecycle, defRecycle, owPulse, defPulse, owPower, delay, ok, watch, maxHits,
+     disMs, fired, en, dis] => do
+    let a : ACfg := { sw := ← natOf sw, coil := ← natOf coil, reverse := ← boolOf reverse, nc := ← boolOf nc,
+                      swDeb := ← boolOf swDeb, owDeb := ← optBoolOf owDeb, owRecycle := ← optBoolOf owRecycle,
+                      defRecycle := ← optBoolOf defRecycle, owPulse := ← optOf owPulse, defPulse := ← natOf defPulse,
+                      owPower := ← optOf owPower, delay := ← natOf delay,
                       ok := ← boolOf ok, watch := ← natOf watch, maxHits := ← natOf maxHits, disableMs := ← natOf disMs,
                       fired := ← optOf fired }
     pure { kind := .autofire a, enEv := ← listOf en, disEv := ← listOf dis }
@@ -398,6 +498,7 @@ def parseOp (n : Nat) (ts : List String) : Option Op :=
   | ["hit", i] => (idx i).map .hit
   | ["ev", e] => (natOf e).map .ev
   | ["advance", dt] => (natOf dt).map .advance
+  | ["setting", v] => (natOf v).map .setting
   | _ => none
 
 def driverStep (d : DrvSt) (line : String) : DrvSt × String :=
